@@ -17,6 +17,7 @@ type c12Case struct {
 	transform bool
 	label     string
 	runnable  bool // terminating and single-typed: accepted code must run without evaluator panic
+	shadow    string // predicate context: name of the pattern's capture ("" = cap)
 }
 
 func c12Source(cs *c12Case, full bool) string {
@@ -24,7 +25,13 @@ func c12Source(cs *c12Case, full bool) string {
 	if cs.transform {
 		return "set f to transform " + body + " end\nreplace all ('7' = cap) with f"
 	}
-	return "set p to pattern ('7' = cap) begin " + body + " end\nfind all p"
+	pat := "('7' = cap)"
+	if cs.shadow != "" {
+		// captures of the pattern are not visible to its predicate: naming one after a built-in or after a
+		// variable of the code changes nothing
+		pat = "('7' = " + cs.shadow + ")"
+	}
+	return "set p to pattern " + pat + " begin " + body + " end\nfind all p"
 }
 
 func c12TypeEnv() proc.TypeEnv {
@@ -165,7 +172,8 @@ func C12(r *drv.Run) {
 	if !quick(r) {
 		nrand = 600000
 	}
-	r.Rule = "exhaustive: all 24 166 expressions of depth <= 1 (3 unary x 43 leaves + 13 binary x 43 x 43 leaves, well and ill typed) in five statement contexts (transform return, predicate return, if condition, set, debug); all statement skeletons of nesting depth <= 3 built from loop / if / if-else / ill-typed if around break, continue, return string|number|bool, debug, set, including a statement placed after a nested loop or if (compile only); seeded random statement lists (set, if/else, loop with break/continue, return, debug) over random expression trees of depth <= 2, in predicate and transform context, every variable initialised once with the type its name stands for; pairs of functions in one source where the second reads names only the first assigned (no checker state may leak from one function into the next). Oracle: type checker transcribed from the documented tables decides accept/reject; accepted single-typed terminating programs are run and must not raise an evaluator panic. Distinct by source text; non-trivial = verdicts agreed on a distinct program (both accepted and rejected programs are required)."
+	nl := len(c11Leaves())
+	r.Rule = fmt.Sprintf("exhaustive: all %d expressions of depth <= 1 (3 unary x %d leaves + 13 binary x %d x %d leaves, well and ill typed)", 3*nl+13*nl*nl, nl, nl, nl) + " in six statement contexts (transform return, predicate return, if condition, set, debug, predicate return under a pattern whose capture is named after a built-in or a variable of the code); all statement skeletons of nesting depth <= 3 built from loop / if / if-else / ill-typed if around break, continue, return string|number|bool, debug, set, including a statement placed after a nested loop or if (compile only); seeded random statement lists (set, if/else, loop with break/continue, return, debug) over random expression trees of depth <= 2, in predicate and transform context, every variable initialised once with the type its name stands for; pairs of functions in one source where the second reads names only the first assigned (no checker state may leak from one function into the next). Oracle: type checker transcribed from the documented tables decides accept/reject; accepted single-typed terminating programs are run and must not raise an evaluator panic. Distinct by source text; non-trivial = verdicts agreed on a distinct program (both accepted and rejected programs are required)."
 	r.Assumptions = []string{
 		"typing of variables: latest assignment in program order, unassigned names are strings (what the documentation's inference amounts to for single-typed variables)",
 		"integer division by zero at run time is not an undefined *typing* operation (known finding K1 under C09) and is ignored here",
@@ -188,7 +196,7 @@ func C12(r *drv.Run) {
 		proc.SSet{Name: "s1", X: proc.EStr{V: "abc"}}, proc.SSet{Name: "n1", X: proc.ENum{V: 7}}, proc.SSet{Name: "b1", X: proc.EBool{V: true}},
 		proc.SSet{Name: "s2", X: proc.EStr{V: ""}}, proc.SSet{Name: "n2", X: proc.ENum{V: 0}},
 	}
-	ctxs := []string{"transform-return", "predicate-return", "if-condition", "set", "debug"}
+	ctxs := []string{"transform-return", "predicate-return", "if-condition", "set", "debug", "predicate-return-shadowed"}
 	r.Extra["exhaustive_expressions"] = len(exprs)
 	r.Exec(len(exprs)*len(ctxs), drv.ExecOpts{Batch: 1500}, func(i int) *drv.Item {
 		e := exprs[i/len(ctxs)]
@@ -200,6 +208,9 @@ func C12(r *drv.Run) {
 			cs.transform = true
 			ss = append(ss, proc.SReturn{X: e})
 		case "predicate-return":
+			ss = append(ss, proc.SReturn{X: e})
+		case "predicate-return-shadowed":
+			cs.shadow = []string{"matchLength", "match", "n1", "b1"}[(i/len(ctxs))%4]
 			ss = append(ss, proc.SReturn{X: e})
 		case "if-condition":
 			cs.transform = true
@@ -240,6 +251,9 @@ func C12(r *drv.Run) {
 		body := pg.stmtList(2, 1+rng.Intn(3), transform, false, rng.Chance(1, 3))
 		ss := pg.withInits(body)
 		cs := &c12Case{stmts: ss, transform: transform, label: "random-statements"}
+		if !transform && rng.Chance(1, 3) {
+			cs.shadow = []string{"matchLength", "match", "n1", "s1", "b1"}[rng.Intn(5)]
+		}
 		cs.runnable = singleTyped(ss, c12TypeEnv())
 		src := c12Source(cs, rng.Bool())
 		c := wire.Case{Op: "run", Src: []byte(src), Texts: [][]byte{[]byte("7a")}, StepBudget: 100000}
